@@ -240,7 +240,7 @@ deriving DecidableEq
 
 inductive FaultE where
   | none
-  | read (target : Target)     -- io / rd: the key is unreadable
+  | read (storage : Bool) (target : Target)  -- io (storage = true) / rd: the key is unreadable
   | evict (target : Target)
 
 def parseTarget (s : String) : Option Target :=
@@ -272,7 +272,8 @@ def parseFault (s : String) : Option FaultE :=
   if s == "-" then some .none
   else match s.splitOn ":" with
     | [k, t] =>
-      if k == "io" || k == "rd0" || k == "rd1" || k == "rd2" || k == "rd3" then (parseTarget t).map FaultE.read
+      if k == "io" then (parseTarget t).map (FaultE.read true)
+      else if k == "rd0" || k == "rd1" || k == "rd2" || k == "rd3" then (parseTarget t).map (FaultE.read false)
       else if k == "ev" then (parseTarget t).map FaultE.evict
       else none
     | _ => none
@@ -312,11 +313,11 @@ def vtx (envS mruleS ownersS pendS faultS iniS isigS usS usigS inputsS actS : St
   let stored : Name → Bool := fun n => (es.any (fun e => decide (e.1 = n))) || pend.contains (.acct n)
   if !preExecutable stored broken acts [] then none
   let faultName : Option Name := match fault with
-    | .read (.name n) => some n
+    | .read _ (.name n) => some n
     | .evict (.name n) => if pend.contains (.acct n) then some n else none
     | _ => none
   let badM : Act → Bool := fun a => match fault with
-    | .read (.meth k) => k == methKind a
+    | .read _ (.meth k) => k == methKind a
     | .evict (.meth k) => k == 0 && methKind a == 0 && pend.contains .meth
     | _ => false
   let ch : TxChain := {
@@ -327,7 +328,14 @@ def vtx (envS mruleS ownersS pendS faultS iniS isigS usS usigS inputsS actS : St
     bad := fun n => broken n || faultName == some n,
     badM := badM }
   let tx : Tx := { init := ini, isig := isig, auth := us, usig := usig, inputs := inputs, acts := acts }
-  pure (ar (verifyTx ch tx))
+  -- Outside access control: a STORAGE read error on a key the transaction itself declares as read makes the last stage
+  -- (verifyTxRWSets, the re-execution over the declared reads) fail. Among the keys a fault can name, the access-control
+  -- stages meet every such key themselves (XCAccount/<a> of SetAccountAcl / NewAccount is looked up for the write)
+  -- except the rule key of c0.run when the transaction overwrites it with SetMethodAcl.
+  let declaredReadBroken : Bool := match fault with
+    | .read true (.meth 0) => acts.contains (.setMethod 0)
+    | _ => false
+  pure (ar (verifyTx ch tx && !declaredReadBroken))
 
 def step (_ : Unit) (line : String) : Unit × String :=
   match line.splitOn "|" with
